@@ -2,6 +2,7 @@
 from __future__ import annotations
 
 import itertools
+import math
 
 import numpy as np
 
@@ -62,6 +63,9 @@ def cases(tier, seed):
             for row in range(rows):
                 for mask in range(1 << n):
                     out.append({"key": f"mask/{m}x{n}/{cls}/row={row}/z={mask:0{n}b}", "kind": "mask", "m": m, "n": n, "cls": cls, "row": row, "mask": mask})
+                    if mask and cls in ("generic", "ints"):  # the same zero columns written as -0.0 (negated data, column * -0.0)
+                        out.append({"key": f"mask/{m}x{n}/{cls}/row={row}/z={mask:0{n}b}/negzero", "kind": "mask", "m": m, "n": n, "cls": cls, "row": row, "mask": mask, "neg": 1})
+                        out.append({"key": f"mask/{m}x{n}/{cls}/row={row}/z={mask:0{n}b}/mixzero", "kind": "mask", "m": m, "n": n, "cls": cls, "row": row, "mask": mask, "neg": 2})
                 for a, b in itertools.combinations(range(n), 2):
                     out.append({"key": f"dup/{m}x{n}/{cls}/row={row}/{a}->{b}", "kind": "dup", "m": m, "n": n, "cls": cls, "row": row, "a": a, "b": b})
         for r in range(0, min(m, n) + 1):
@@ -82,13 +86,16 @@ def cases(tier, seed):
     for (m, n) in ((9, 7), (7, 9), (12, 12), (17, 5), (5, 17), (65, 3), (3, 65), (1, 9), (9, 1)):
         out.append({"key": f"large/{m}x{n}", "kind": "layout", "m": m, "n": n, "cls": "generic", "row": 0, "lay": "C"})
         out.append({"key": f"large-zero-col/{m}x{n}", "kind": "scaled", "m": m, "n": n, "cls": "ints", "row": 0, "e": 0, "zc": min(2, n - 1)})
+    for (m, n) in ((8, 2), (9, 2), (12, 3), (16, 4), (40, 4), (17, 4), (4, 16)):
+        out.append({"key": f"xf/{m}x{n}/nearcol", "kind": "xf", "m": m, "n": n, "cls": "generic", "row": 0, "xf": "nearcol"})
+        out.append({"key": f"xf/{m}x{n}/negzero_col", "kind": "xf", "m": m, "n": n, "cls": "generic", "row": 0, "xf": "negzero_col"})
     return out
 
 
 def run_case(case, seed):
     lib = load()
     m, n = case["m"], case["n"]
-    fill = G.Fill(seed + 101 * case["row"], stream=hash_tag(case["key"].rsplit("/", 1)[0] if case["kind"] != "lowrank" else case["key"]))
+    fill = G.Fill(seed + 101 * case["row"], stream=hash_tag((case["key"].rsplit("/", 1)[0] if case.get("neg") else case["key"]).rsplit("/", 1)[0] if case["kind"] != "lowrank" else case["key"]))
     if case["kind"] == "lowrank":
         r = case["r"]
         if r == 0:
@@ -121,7 +128,7 @@ def run_case(case, seed):
         if case["kind"] == "mask":
             for j in range(n):
                 if (case["mask"] >> j) & 1:
-                    A[:, j] = 0.0
+                    A[:, j] = (-0.0 if case["neg"] == 1 else A[:, j] * 0.0) if case.get("neg") else 0.0
         else:
             q = np.array([0.5, -1.0, 0.0, 2.0])
             A[:, case["b"]] = O.qmul(A[:, case["a"]], np.broadcast_to(q, (m, 4)))  # right multiple: same column space
@@ -135,6 +142,9 @@ def run_case(case, seed):
     lead_dep = nz_lead - lead_rk
     tags = {"wide": m < n, "coldef": n - rk, "rank": rk, "lead_def": k - lead_rk, "lead_dep": lead_dep,
             "finding_zone": bool(lead_dep >= 1 or (m < n and k - lead_rk >= 1)), "kind": case["kind"], "m": m, "n": n}
+    sv_ = O.svals(A[:, :k]) if k else np.zeros(0)
+    cond_lead = float(sv_[0] / sv_[-1]) if len(sv_) and sv_[-1] > 0 else float("inf")
+    tags["illcond"] = bool(lead_rk == k and cond_lead >= 2.0 ** 10)
     Aq = relayout(G.to_quat(A), case.get("lay", "C"))
     before = Aq.tobytes()
     ok, res = call(lib.qsvd.qr_qua, Aq)
@@ -151,7 +161,7 @@ def run_case(case, seed):
         else:
             dQ = O.unitarity_defect(Q)
             if dQ > O.budget(1.0, dims=16 * max(m, n)):
-                fails.append(fail("Q_orthonormal", f"||Q^H Q - I||_F = {dQ:.3e}", **tags))
+                fails.append(fail("Q_orthonormal", f"||Q^H Q - I||_F = {dQ:.3e} (cond of the leading columns {cond_lead:.2e})", dQ_over_cond_u=(dQ / (cond_lead * O.U) if math.isfinite(cond_lead) else -1.0), **tags))
             low = max((O.qabs(R[i, j]) for i in range(k) for j in range(min(i, n))), default=0.0)
             if low > O.budget(nA, dims=4 * max(m, n)):
                 fails.append(fail("R_upper", f"max |R_ij| below diagonal = {low:.3e}", **tags))
